@@ -33,6 +33,25 @@ let fbf (x : bdd) (y : bdd) fa fb fo op : bdd outcome =
   | `Auto ->
     if longer_than x fast_threshold || longer_than y fast_threshold
     then fused_binary_flip_op_fast x y fa fb fo op else fused_binary_flip_op x y fa fb fo op
+(* The same selection for the other loops of the library that have an efficient twin proved EQUAL to their reference
+   model with no hypotheses: the size-limited engine and the dry run (Model/ApplyFast2.v, Proofs/ApplyFast2.v
+   fused_binary_flip_op_with_limit_fast_eq / check_fused_binary_flip_op_fast_eq), the ternary engine
+   (Model/Apply3Fast.v, Proofs/Apply3Fast.v fused_ternary_flip_op_faithful_fast_eq) and the nested apply
+   (Model/NestedFast.v, Proofs/NestedFast.v nested_apply_fn_fast_eq).  BDD_ENGINE=fast forces the twins, slow/stack the
+   reference definitions (engine cross-check of ./check). *)
+let is_big (x : bdd) = longer_than x fast_threshold
+let use_fast (operands : bdd list) : bool =
+  match engine with
+  | `Fast -> true
+  | `Slow | `Stack -> false
+  | `Auto -> List.exists is_big operands
+let limf lim (x : bdd) (y : bdd) fa fb fo op : bdd option outcome =
+  if use_fast [x; y] then fused_binary_flip_op_with_limit_fast lim x y fa fb fo op
+  else fused_binary_flip_op_with_limit lim x y fa fb fo op
+let dryf lim (x : bdd) (y : bdd) fa fb fo op : (bool * n) option outcome =
+  if use_fast [x; y] then check_fused_binary_flip_op_fast lim x y fa fb fo op
+  else check_fused_binary_flip_op lim x y fa fb fo op
+
 (* restrict / var_restrict: the order-faithful single-pass algorithm (Model/Restrict.v) is the model that is
    reported; the compositional model (Ops.restrict, exists-of-select) is computed as well.  On a well-formed
    operand (in particular on every canonical one) the two are proved equal (Proofs/Restrict.v
@@ -64,9 +83,14 @@ let nf_both faithful fold (nv : n) (cs : pval list) : bdd outcome =
    model/extraction/driver bug and is a hard error; otherwise (malformed operand recorded from a defective
    implementation, inconsistent table) the theorem does not apply and the faithful engine's result goes to the judge. *)
 let tern3 (x : bdd) (y : bdd) (z : bdd) fa fb fc fo (op : op3) : bdd outcome =
-  let f = fused_ternary_flip_op_faithful x y z fa fb fc fo op in
-  let c = fused_ternary_flip_op x y z fa fb fc fo op in
-  if f <> c && table3_okb op && wfb x && wfb y && wfb z then raise (Bad "ternary-models-disagree");
+  let f = if use_fast [x; y; z] then fused_ternary_flip_op_faithful_fast x y z fa fb fc fo op
+          else fused_ternary_flip_op_faithful x y z fa fb fc fo op in
+  (* the compositional cross-check runs five reference binary applies and the list-based wfb (quadratic): only
+     when no operand is above the threshold *)
+  if not (List.exists is_big [x; y; z]) then begin
+    let c = fused_ternary_flip_op x y z fa fb fc fo op in
+    if f <> c && table3_okb op && wfb x && wfb y && wfb z then raise (Bad "ternary-models-disagree")
+  end;
   f
 
 (* nested apply: the model answer is the result of the FAITHFUL engine (Model/Nested.v: outer engine, inner
@@ -88,8 +112,14 @@ let or_and_like (inner : op2) : bool =
   let total_is f = List.for_all (fun (a, b) -> inner (Some a) (Some b) = Some (f a b))
       [(false,false);(false,true);(true,false);(true,true)] in
   table_ok inner && (total_is (||) || total_is (&&))
-let both_nested (operands : bdd list) (outer : op2) (faithful : bdd outcome) (compositional : bdd outcome) : bdd outcome =
-  if faithful <> compositional && List.for_all wfb operands && table_ok outer then raise (Bad "nested models disagree");
+let both_nested (operands : bdd list) (outer : op2) (reference : unit -> bdd outcome) (fast : unit -> bdd outcome)
+    (compositional : unit -> bdd outcome) : bdd outcome =
+  let faithful = if use_fast operands then fast () else reference () in
+  (* the compositional model is a chain of reference binary applies (quadratic): only when no operand is above
+     the threshold *)
+  if not (List.exists is_big operands) then begin
+    if faithful <> compositional () && List.for_all wfb operands && table_ok outer then raise (Bad "nested models disagree")
+  end;
   faithful
 
 (* substitute: the reported result is the one of the STEP-FAITHFUL model of the library's own algorithm
@@ -120,14 +150,14 @@ let run (c : s list) : s option =
     e_obdd (fbf (d_bdd x) (d_bdd y) None None None op)
   | A "fbinlim" :: lim :: t :: fa :: fb :: fo :: x :: y :: _ ->
     e_outcome (e_opt e_bdd)
-      (fused_binary_flip_op_with_limit (d_n lim) (d_bdd x) (d_bdd y) (d_optvar fa) (d_optvar fb) (d_optvar fo) (op2_of t))
+      (limf (d_n lim) (d_bdd x) (d_bdd y) (d_optvar fa) (d_optvar fb) (d_optvar fo) (op2_of t))
   | A "binlim" :: lim :: t :: x :: y :: _ ->
-    e_outcome (e_opt e_bdd) (fused_binary_flip_op_with_limit (d_n lim) (d_bdd x) (d_bdd y) None None None (op2_of t))
+    e_outcome (e_opt e_bdd) (limf (d_n lim) (d_bdd x) (d_bdd y) None None None (op2_of t))
   | A "dry" :: lim :: t :: fa :: fb :: fo :: x :: y :: _ ->
     e_outcome (e_opt (e_pair e_bool e_n))
-      (check_fused_binary_flip_op (d_n lim) (d_bdd x) (d_bdd y) (d_optvar fa) (d_optvar fb) (d_optvar fo) (op2_of t))
+      (dryf (d_n lim) (d_bdd x) (d_bdd y) (d_optvar fa) (d_optvar fb) (d_optvar fo) (op2_of t))
   | A "drybin" :: lim :: t :: x :: y :: _ ->
-    e_outcome (e_opt (e_pair e_bool e_n)) (check_fused_binary_flip_op (d_n lim) (d_bdd x) (d_bdd y) None None None (op2_of t))
+    e_outcome (e_opt (e_pair e_bool e_n)) (dryf (d_n lim) (d_bdd x) (d_bdd y) None None None (op2_of t))
   | A "optable" :: A name :: _ ->
     let op = match name with
       | "and" -> op_and | "or" -> op_or | "imp" -> op_imp | "iff" -> op_iff | "xor" -> op_xor | "and_not" -> op_and_not
@@ -144,23 +174,25 @@ let run (c : s list) : s option =
   | A "var_for_all" :: x :: v :: _ -> e_obdd (var_for_all (d_bdd x) (d_n v))
   | A "exists" :: x :: vs :: _ ->
     let b = d_bdd x and l = d_list d_n vs in
-    e_obdd (both_nested [b] op_and (bdd_exists_faithful b l) (bdd_exists b l))
+    e_obdd (both_nested [b] op_and (fun () -> bdd_exists_faithful b l) (fun () -> bdd_exists_faithful_fast b l) (fun () -> bdd_exists b l))
   | A "for_all" :: x :: vs :: _ ->
     let b = d_bdd x and l = d_list d_n vs in
-    e_obdd (both_nested [b] op_and (bdd_for_all_faithful b l) (bdd_for_all b l))
+    e_obdd (both_nested [b] op_and (fun () -> bdd_for_all_faithful b l) (fun () -> bdd_for_all_faithful_fast b l) (fun () -> bdd_for_all b l))
   | A "bin_exists" :: t :: x :: y :: vs :: _ ->
     let a = d_bdd x and b = d_bdd y and l = d_list d_n vs and op = op2_of t in
-    e_obdd (both_nested [a; b] op (binary_op_with_exists_faithful a b op l) (binary_op_with_exists a b op l))
+    e_obdd (both_nested [a; b] op (fun () -> binary_op_with_exists_faithful a b op l)
+              (fun () -> binary_op_with_exists_faithful_fast a b op l) (fun () -> binary_op_with_exists a b op l))
   | A "bin_for_all" :: t :: x :: y :: vs :: _ ->
     let a = d_bdd x and b = d_bdd y and l = d_list d_n vs and op = op2_of t in
-    e_obdd (both_nested [a; b] op (binary_op_with_for_all_faithful a b op l) (binary_op_with_for_all a b op l))
+    e_obdd (both_nested [a; b] op (fun () -> binary_op_with_for_all_faithful a b op l)
+              (fun () -> binary_op_with_for_all_faithful_fast a b op l) (fun () -> binary_op_with_for_all a b op l))
   | A "nested" :: tout :: tin :: x :: y :: trig :: _ ->
     let inner = op2_of tin in
     let is_and = (inner (Some false) (Some true) = Some false) in
     let a = d_bdd x and b = d_bdd y and tr = d_bits 'v' trig and out = op2_of tout in
-    let faithful = nested_apply_faithful a b tr out inner in
-    if or_and_like inner then e_obdd (both_nested [a; b] out faithful (binary_op_nested a b tr out is_and))
-    else e_obdd faithful
+    let reference () = nested_apply_faithful a b tr out inner and fast () = nested_apply_faithful_fast a b tr out inner in
+    if or_and_like inner then e_obdd (both_nested [a; b] out reference fast (fun () -> binary_op_nested a b tr out is_and))
+    else e_obdd (if use_fast [a; b] then fast () else reference ())
   | A "var_select" :: x :: v :: c :: _ -> e_obdd (var_select (d_bdd x) (d_n v) (d_bool c))
   | A "select" :: x :: lits :: _ -> e_obdd (select (d_bdd x) (d_list (d_pair d_n d_bool) lits))
   | A "var_restrict" :: x :: v :: c :: _ -> e_obdd (restrict_both (d_bdd x) [(d_n v, d_bool c)])
